@@ -101,6 +101,72 @@ pub fn install_crash_handlers() {
     }
 }
 
+static WD_LAST: core::sync::atomic::AtomicU64 = core::sync::atomic::AtomicU64::new(u64::MAX);
+static WD_STALLS: core::sync::atomic::AtomicU64 = core::sync::atomic::AtomicU64::new(0);
+static WD_LIMIT: core::sync::atomic::AtomicU64 = core::sync::atomic::AtomicU64::new(3);
+
+extern "C" fn on_tick(_sig: libc::c_int) {
+    use core::sync::atomic::Ordering::Relaxed;
+    let now = crate::EXECUTIONS.load(Relaxed);
+    if now == WD_LAST.load(Relaxed) && crate::in_subject() {
+        let n = WD_STALLS.fetch_add(1, Relaxed) + 1;
+        if n >= WD_LIMIT.load(Relaxed) {
+            unsafe {
+                let fd = CRASH_FD;
+                write_fd(fd, b"\nCRASH signal=HANG oom=0 note=");
+                let n = &*NOTE.0.get();
+                write_fd(fd, &n.buf[..n.len]);
+                write_fd(fd, b"\n");
+                libc::_exit(70);
+            }
+        }
+    } else {
+        WD_STALLS.store(0, Relaxed);
+        WD_LAST.store(now, Relaxed);
+    }
+}
+
+/// Opt-in watchdog for engines whose executions are micro-operations: a timer on the CPU time of this process
+/// ticks every `tick_secs`; when `stalls` consecutive ticks find the same execution still inside the crate
+/// (attribution window open), the call never returned: `CRASH signal=HANG note=<case>` and exit 70, like a crash.
+pub fn arm_hang_watchdog(tick_secs: i64, stalls: u64) {
+    if cfg!(miri) {
+        return;
+    }
+    unsafe {
+        WD_LIMIT.store(stalls.max(2), core::sync::atomic::Ordering::Relaxed);
+        let mut sa: libc::sigaction = core::mem::zeroed();
+        sa.sa_sigaction = on_tick as *const () as usize;
+        sa.sa_flags = libc::SA_ONSTACK | libc::SA_RESTART;
+        libc::sigemptyset(&mut sa.sa_mask);
+        libc::sigaction(libc::SIGVTALRM, &sa, core::ptr::null_mut());
+        let tv = libc::timeval { tv_sec: tick_secs as _, tv_usec: 0 };
+        let it = libc::itimerval { it_interval: tv, it_value: tv };
+        libc::setitimer(libc::ITIMER_VIRTUAL, &it, core::ptr::null_mut());
+    }
+}
+
+/// Reserve `len` bytes of zero-filled, read-only address space (pages are only materialised when read): a way to hold
+/// byte strings of 2^31 / 2^32 bytes whose lengths matter and whose contents are never walked. None if refused.
+pub fn map_zero_readonly(len: usize) -> Option<*const u8> {
+    if cfg!(miri) {
+        return None;
+    }
+    unsafe {
+        let p = libc::mmap(core::ptr::null_mut(), len, libc::PROT_READ, libc::MAP_PRIVATE | libc::MAP_ANONYMOUS | libc::MAP_NORESERVE, -1, 0);
+        if p == libc::MAP_FAILED {
+            None
+        } else {
+            Some(p as *const u8)
+        }
+    }
+}
+pub fn unmap(p: *const u8, len: usize) {
+    unsafe {
+        libc::munmap(p as *mut _, len);
+    }
+}
+
 /// Outcome of a fork-isolated probe.
 #[derive(Debug, Clone, PartialEq, Eq)]
 pub enum ProbeOutcome {
